@@ -337,7 +337,7 @@ func TestStyledExhaustive(t *testing.T) {
 		t.Skip("fixed enumeration: shard 0 only")
 	}
 	pbt.Enumerate(t, "ref-escaped-exhaustive",
-		"every 1- and 2-byte string written by the reference writer in each single escape form (raw, simple, octal 3/min, hex 2/min/upper, \\u, \\U) and both quote characters -> text.Decoder and UnmarshalString; non-trivial = has a byte >= 0x80 or a control byte",
+		"every 1-byte string written by the reference writer in each single escape form (raw, simple, octal 3/min, hex 2/min/upper, \\u, \\U), every 2-byte string in the forms whose width depends on the next character (raw, simple, octal-min, hex-min, \\u), both quote characters -> text.Decoder and UnmarshalString; non-trivial = has a byte >= 0x80 or a control byte",
 		true,
 		func(yield func(styledCase, bool) bool) {
 			emit := func(s []byte) bool {
@@ -345,6 +345,9 @@ func TestStyledExhaustive(t *testing.T) {
 					for _, single := range []bool{false, true} {
 						if len(s) == 2 && single && st != ref.StyleRaw && st != ref.StyleSimple {
 							continue // quote character only matters for raw/simple forms
+						}
+						if len(s) == 2 && (st == ref.StyleOctal3 || st == ref.StyleHex2 || st == ref.StyleHexUpper || st == ref.StyleU8) {
+							continue // fixed-width forms do not interact with the next character: covered by the 1-byte strings
 						}
 						if !yield(styledCase{S: append([]byte(nil), s...), Single: single, Styles: []int{st}}, interesting(s)) {
 							return false
